@@ -17,7 +17,8 @@ checks around them and the `utils.py` canonicalisers, as `Raw → Except Err Cfg
   increasing, trust `main ≠ cond`, …); `verifyLattice_cfgWF`: accepted ⇒ the well-formedness
   hypothesis `Tfl.C01.CfgWF` of the C01 theorems.
 * T2 `*_syn`: synonymous spellings canonicalise to EQUAL configurations.
-* counter-witnesses of the recorded findings (`F_C16_*`).
+* counter-witnesses of the recorded findings (`F_C16_*`); `fixed_C16_*`: the fixed model rejects the
+  old witnesses of the findings fixed in the source.
 -/
 namespace Tfl.C16
 open Tfl Tfl.Verify Tfl.Generated.Accept
@@ -40,7 +41,7 @@ theorem accept_randomMonotonicInitializer :
 /-- lattice `LaplacianRegularizer.__init__` (per-dimension amounts must match the rank) -/
 theorem accept_laplacianRegularizer :
     tableOK laplacianRegularizer laplacianRegularizer_row laplacianRegularizer_chunks = true := by decide +kernel
-/-- `TorsionRegularizer.__init__` verifies nothing (every row is accepted) -/
+/-- `TorsionRegularizer.__init__` verifies its amounts like the Laplacian one (fix 4c13b7a) -/
 theorem accept_torsionRegularizer :
     tableOK torsionRegularizer torsionRegularizer_row torsionRegularizer_chunks = true := by decide +kernel
 /-- `PWLCalibration.__init__` -/
@@ -332,9 +333,34 @@ theorem scalings_getD_ne_zero : ∀ (monos : List Int) (los his : List (Option R
       rw [getD_tail] at hl hh
       exact hne l h hl hh
 
+/-- what the range-dominance loop establishes for one dimension: both bounds are given and
+`input_min < input_max` (fix 7189cd2) -/
+def RangeOK (imin imax : Option (List Atom)) (d : Nat) : Prop :=
+  ∃ l h : Rat, ((imin.getD []).getD d .none).num = some l ∧ ((imax.getD []).getD d .none).num = some h ∧ l < h
+
+theorem rdDimBad_false {imin imax : Option (List Atom)} {d : Nat} (h : rdDimBad imin imax d = .ok false) :
+    RangeOK imin imax d := by
+  simp only [rdDimBad, bind, Except.bind] at h
+  split at h
+  · cases h
+  · split at h
+    · cases h
+    · split at h
+      · cases h
+      · split at h
+        · cases h
+        · unfold rangeEmpty at h
+          split at h
+          · rename_i a b ha hb
+            simp only [Except.ok.injEq, decide_eq_false_iff_not, not_le] at h
+            exact ⟨a, b, ha, hb, h⟩
+          · cases h
+
 theorem linRdLoop_spec {mono : List Atom} {imin imax : Option (List Atom)} :
-    ∀ (xs : List Item) (acc ps : List (Nat × Nat)), (∀ p ∈ acc, p.1 < mono.length ∧ p.2 < mono.length) →
-      linRdLoop mono imin imax xs acc = .ok ps → ∀ p ∈ ps, p.1 < mono.length ∧ p.2 < mono.length := by
+    ∀ (xs : List Item) (acc ps : List (Nat × Nat)),
+      (∀ p ∈ acc, (p.1 < mono.length ∧ p.2 < mono.length) ∧ RangeOK imin imax p.1 ∧ RangeOK imin imax p.2) →
+      linRdLoop mono imin imax xs acc = .ok ps →
+      ∀ p ∈ ps, (p.1 < mono.length ∧ p.2 < mono.length) ∧ RangeOK imin imax p.1 ∧ RangeOK imin imax p.2 := by
   intro xs
   induction xs with
   | nil =>
@@ -351,7 +377,7 @@ theorem linRdLoop_spec {mono : List Atom} {imin imax : Option (List Atom)} :
     · split at h
       · cases h
       · split at h
-        · rename_i tp a b
+        · rename_i tp a b _hlen
           split at h
           · cases h
           · rename_i bad hbad
@@ -368,29 +394,44 @@ theorem linRdLoop_spec {mono : List Atom} {imin imax : Option (List Atom)} :
                 · cases h
                 · split at h
                   · cases h
-                  · split at h
+                  · rename_i miss hmiss
+                    split at h
                     · cases h
-                    · split at h
+                    · rename_i hm
+                      have hm' : miss = false := by simpa using hm
+                      subst hm'
+                      have hr : RangeOK imin imax (atomNat a) ∧ RangeOK imin imax (atomNat b) := by
+                        simp only [rdBoundsMissing, bind, Except.bind] at hmiss
+                        split at hmiss
+                        · cases hmiss
+                        · rename_i b1 h1
+                          split at hmiss
+                          · cases hmiss
+                          · rename_i hb1
+                            have e : b1 = false := by simpa using hb1
+                            subst e
+                            exact ⟨rdDimBad_false h1, rdDimBad_false hmiss⟩
+                      split at h
                       · cases h
                       · apply ih _ ps _ h
                         intro p hp
                         rcases List.mem_cons.mp hp with e | e
-                        · subst e; exact ⟨hd.1.atomNat_lt, hd.2.atomNat_lt⟩
+                        · subst e; exact ⟨⟨hd.1.atomNat_lt, hd.2.atomNat_lt⟩, hr⟩
                         · exact hacc p e
         · cases h
 
 /-- **C16-T1 (linear, range dominance)**: for an accepted configuration every range-dominance
-dimension is in range, and — under the hypothesis that its input range is non-degenerate, which
-`verify_hyperparameters` does NOT demand (finding F-C16-a, `F_C16_a_zero_range`) — the scaling the
-projection divides by is non-zero. -/
+dimension is in range, has both input bounds and a NON-EMPTY input range `input_min < input_max`
+(a consequence of `verify = ok` since fix 7189cd2 — formerly the hypothesis excluded by finding
+F-C16-a), hence the scaling the projection divides by is non-zero. -/
 theorem verifyLinear_range_scaling (nid : Option Nat) (mv mdv rdv iminv imaxv : Val) (c : LinCfg)
-    (h : verifyLinear nid mv mdv rdv iminv imaxv = .ok c)
-    (hF : ∀ p ∈ c.rd, ∀ d, d = p.1 ∨ d = p.2 →
-      ∀ l h', c.los.getD d none = some l → c.his.getD d none = some h' → l < h') :
+    (h : verifyLinear nid mv mdv rdv iminv imaxv = .ok c) :
     ∀ p ∈ c.rd, ∀ d, d = p.1 ∨ d = p.2 →
-      d < c.monos.length ∧ (Tfl.Linear.scalings c.monos c.los c.his).getD d 0 ≠ 0 := by
+      d < c.monos.length ∧
+      (∃ l h' : Rat, c.los.getD d none = some l ∧ c.his.getD d none = some h' ∧ l < h') ∧
+      (Tfl.Linear.scalings c.monos c.los c.his).getD d 0 ≠ 0 := by
   intro p hp d hd
-  have hlt : d < c.monos.length := by
+  have key : d < c.monos.length ∧ RangeOK c.imin c.imax d := by
     simp only [verifyLinear, bind, Except.bind] at h
     split at h
     · cases h
@@ -407,32 +448,51 @@ theorem verifyLinear_range_scaling (nid : Option Nat) (mv mdv rdv iminv imaxv : 
             · cases h
             · split at h
               · cases h
-              · rename_i md _
-                split at h
+              · split at h
                 · cases h
-                · rename_i rd hrd
-                  split at h
+                · split at h
                   · cases h
-                  · simp only [pure, Except.pure, Except.ok.injEq] at h
-                    subst h
-                    simp only [LinCfg.monos, List.length_map]
-                    simp only at hp
-                    unfold linRd at hrd
-                    split at hrd
-                    · simp only [Except.ok.injEq] at hrd
-                      subst hrd; cases hp
-                    · split at hrd
-                      · cases hrd
-                      · rename_i m
-                        simp only [bind, Except.bind] at hrd
-                        split at hrd
-                        · cases hrd
-                        · have := linRdLoop_spec _ _ _ (fun q hq => by cases hq) hrd p hp
-                          simp only [Option.getD_some]
-                          rcases hd with e | e <;> subst e
-                          · exact this.1
-                          · exact this.2
-  exact ⟨hlt, scalings_getD_ne_zero _ _ _ d hlt (fun l h' hl hh => ne_of_lt (hF p hp d hd l h' hl hh))⟩
+                  · split at h
+                    · cases h
+                    · rename_i md _
+                      split at h
+                      · cases h
+                      · rename_i rd hrd
+                        split at h
+                        · cases h
+                        · simp only [pure, Except.pure, Except.ok.injEq] at h
+                          subst h
+                          simp only [LinCfg.monos, List.length_map]
+                          simp only at hp
+                          unfold linRd at hrd
+                          split at hrd
+                          · simp only [Except.ok.injEq] at hrd
+                            subst hrd; cases hp
+                          · split at hrd
+                            · cases hrd
+                            · rename_i m
+                              simp only [bind, Except.bind] at hrd
+                              split at hrd
+                              · cases hrd
+                              · have := linRdLoop_spec _ _ _ (fun q hq => by cases hq) hrd p hp
+                                simp only [Option.getD_some]
+                                rcases hd with e | e <;> subst e
+                                · exact ⟨this.1.1, this.2.1⟩
+                                · exact ⟨this.1.2, this.2.2⟩
+  obtain ⟨hlt, l, h', hl, hh, hlh⟩ := key
+  have hlos : c.los.getD d none = some l := by
+    simp only [LinCfg.los, List.getD_eq_getElem?_getD, List.getElem?_map]
+    cases hx : (c.imin.getD [])[d]? with
+    | none => simp [List.getD_eq_getElem?_getD, hx, Atom.num] at hl
+    | some x => simp [List.getD_eq_getElem?_getD, hx] at hl ⊢; exact hl
+  have hhis : c.his.getD d none = some h' := by
+    simp only [LinCfg.his, List.getD_eq_getElem?_getD, List.getElem?_map]
+    cases hx : (c.imax.getD [])[d]? with
+    | none => simp [List.getD_eq_getElem?_getD, hx, Atom.num] at hh
+    | some x => simp [List.getD_eq_getElem?_getD, hx] at hh ⊢; exact hh
+  refine ⟨hlt, ⟨l, h', hlos, hhis, hlh⟩, ?_⟩
+  exact scalings_getD_ne_zero _ _ _ d hlt (fun l2 h2 e1 e2 => by
+    rw [hlos] at e1; rw [hhis] at e2; cases e1; cases e2; exact ne_of_lt hlh)
 
 /-! ### Categorical, KFL -/
 
@@ -643,13 +703,13 @@ example : (verifyLattice exampleLat).toOption.map (fun c => c.ew.length + c.tp.l
 
 /-! ## counter-witnesses of the recorded findings -/
 
-/-- **F-C16-a** `linear_lib.verify_hyperparameters` accepts a range dominance on a dimension whose
-input range is empty (`input_min = input_max`): the scaling of that dimension is 0 and the
-projection divides by it (`inf`/`NaN` in the real code). -/
-theorem F_C16_a_zero_range :
+/-- **F-C16-a, fixed by 7189cd2**: the old witness — a range dominance on a dimension whose input
+range is empty (`input_min = input_max`), whose scaling is 0 — is now REJECTED with a ValueError
+by the model of the fixed `linear_lib.verify_hyperparameters`. -/
+theorem fixed_C16_a_zero_range_rejected :
     outcome (linearConstraints ⟨.s false [.a (.int 1), .a (.int 1)], .a .none,
       .s false [.s true [.int 0, .int 1]], .s false [.a (.flt 0), .a (.flt 0)],
-      .s false [.a (.flt 1), .a (.flt 0)]⟩) = 0 ∧
+      .s false [.a (.flt 1), .a (.flt 0)]⟩) = 1 ∧
     (Tfl.Linear.scalings [1, 1] [some 0, some 0] [some 1, some 0]).getD 1 1 = 0 := by decide +kernel
 
 /-- **F-C16-f** a dominance given as ONE tuple to `LinearConstraints` / `Linear` is a `TypeError`
@@ -663,36 +723,93 @@ as the corresponding parameter of `Lattice`" (None, ONE tuple, or an iterable of
 `Lattice.__init__` wraps a single tuple: given to the constraints class it is a `TypeError` -/
 theorem F_C16_h_single_tuple_trust :
     outcome (latticeConstraints ⟨.s false [.a (.int 2), .a (.int 2)], .s false [.a (.int 1), .a (.int 1)], .a .none,
-      .s true [.a (.int 0), .a (.int 1), .a (.str .positive)], .a .none, .a .none, .a .none, .a .none, .none⟩) = 2 ∧
+      .s true [.a (.int 0), .a (.int 1), .a (.str .positive)], .a .none, .a .none, .a .none, .a .none, .none, .a .none, .a .none⟩) = 2 ∧
     outcome (latticeConstraints ⟨.s false [.a (.int 2), .a (.int 2)], .s false [.a (.int 1), .a (.int 1)], .a .none,
-      .a .none, .a .none, .s true [.a (.int 0), .a (.int 1)], .a .none, .a .none, .none⟩) = 2 := by decide +kernel
+      .a .none, .a .none, .s true [.a (.int 0), .a (.int 1)], .a .none, .a .none, .none, .a .none, .a .none⟩) = 2 := by decide +kernel
 
-/-- **F-C16-i** `LinearConstraints(monotonicities=None, …dominances…)` trips an `assert`
-(`AssertionError`), and `input_min` shorter than `monotonicities` an `IndexError`: neither is a
-`ValueError` -/
-theorem F_C16_i_linear_assert_index :
+/-- **F-C16-i, fixed by b89ac95**: dominances with `monotonicities=None` (formerly an
+`AssertionError`) and an `input_min` shorter than `monotonicities` (formerly an `IndexError`) are
+now both rejected with a ValueError -/
+theorem fixed_C16_i_linear_assert_index_rejected :
     outcome (linearConstraints ⟨.a .none, .a .none, .s false [.s true [.int 0, .int 1]],
-      .s false [.a (.flt 0), .a (.flt 0)], .s false [.a (.flt 1), .a (.flt 1)]⟩) = 3 ∧
+      .s false [.a (.flt 0), .a (.flt 0)], .s false [.a (.flt 1), .a (.flt 1)]⟩) = 1 ∧
     outcome (linearConstraints ⟨.s false [.a (.int 1), .a (.int 1), .a (.int 1)], .a .none,
       .s false [.s true [.int 0, .int 2]], .s false [.a (.flt 0), .a (.flt 0)],
-      .s false [.a (.flt 1), .a (.flt 1)]⟩) = 3 := by decide +kernel
+      .s false [.a (.flt 1), .a (.flt 1)]⟩) = 1 := by decide +kernel
 
-/-- **F-C16-s** `LatticeConstraints.__init__` does not hand `output_min` / `output_max` to the
-verification: the very arguments that `verify_hyperparameters` rejects when it sees the bounds
-(`output_min >= output_max`, here through `LinearInitializer`) are accepted by the constraints
-class — the bounds projection then divides by `output_max - output_min = 0`. -/
-theorem F_C16_s_bounds_unverified :
-    outcome (linearInitializer ⟨.s false [.a (.int 3), .a (.int 3)], .s false [.a (.int 1), .a (.int 1)],
-      .a (.flt 0), .a (.flt 0), .a .none⟩) = 1 ∧
-    outcome (latticeConstraints ⟨.s false [.a (.int 3), .a (.int 3)], .s false [.a (.int 1), .a (.int 1)], .a .none,
-      .s false [.s true [.int 0, .int 1, .int 1]], .a .none, .a .none, .a .none, .a .none, .none⟩) = 0 := by
+/-- **F-C16-e / F-C16-m, fixed by a22154b**: `is_cyclic` with `'equal_slopes'` and clamping of a non
+monotonic calibrator are rejected at construction; the same arguments without the offending one
+are accepted -/
+theorem fixed_C16_e_m_pwl_rejected :
+    let base : RawPwl := ⟨.s false [.a (.flt 0), .a (.flt 1), .a (.flt 3)], .a (.flt 0), .a (.flt 2), .a (.int 0),
+      .a (.str .none_), .a (.int 0), .a (.int 0), .a .none, .a .none, .a (.str .fixed), .a (.int 0), .a (.int 0),
+      .a (.str .other)⟩
+    outcome (pwlCalibration base) = 0 ∧
+    outcome (pwlCalibration { base with cyclic := .a (.int 1), init := .a (.str .equal_slopes) }) = 1 ∧
+    outcome (pwlCalibration { base with clampMin := .a (.int 1) }) = 1 ∧
+    outcome (pwlCalibration { base with clampMin := .a (.int 1), mono := .a (.str .increasing) }) = 0 := by
   decide +kernel
+
+/-- **C16-T1 (PWL layer)** an accepted `PWLCalibration` that requests clamping is monotone, and a
+cyclic one is not initialised with `'equal_slopes'` (the two late failures F-C16-e / F-C16-m are
+excluded by construction) -/
+theorem pwlCalibration_ok (r : RawPwl) (c : PwlCfg) (h : pwlCalibration r = .ok c) :
+    (clampRequested r = true → c.mono.truthy = true) ∧
+    (r.cyclic.truthy = true → r.init ≠ .a (.str .equal_slopes)) := by
+  simp only [pwlCalibration, bind, Except.bind] at h
+  split at h
+  · cases h
+  · split at h
+    · cases h
+    · split at h
+      · cases h
+      · split at h
+        · cases h
+        · split at h
+          · cases h
+          · rename_i hcyc
+            split at h
+            · cases h
+            · split at h
+              · cases h
+              · rename_i hcl
+                split at h
+                · cases h
+                · simp only [pure, Except.pure, Except.ok.injEq] at h
+                  subst h
+                  refine ⟨fun hc => ?_, fun hc he => ?_⟩
+                  · simpa [hc] using hcl
+                  · apply hcyc; simp [hc, he]
+
+/-- **F-C16-j, fixed by 4c13b7a**: per-dimension torsion amounts of the wrong length are rejected -/
+theorem fixed_C16_j_torsion_amounts_rejected :
+    outcome (torsionRegularizer ⟨.s false [.a (.int 2), .a (.int 2)], .s false [.a (.flt (1/10))], .a (.flt 0)⟩) = 1 := by
+  decide +kernel
+
+/-- **F-C16-s, fixed by 6e08a8c**: `LatticeConstraints.__init__` now hands `output_min` /
+`output_max` to the verification: `output_min >= output_max` is a ValueError at construction (the
+bounds projection can no longer divide by `output_max - output_min = 0`); proper bounds are accepted -/
+theorem fixed_C16_s_bounds_verified :
+    outcome (latticeConstraints ⟨.s false [.a (.int 3), .a (.int 3)], .s false [.a (.int 1), .a (.int 1)], .a .none,
+      .s false [.s true [.int 0, .int 1, .int 1]], .a .none, .a .none, .a .none, .a .none, .none,
+      .a (.flt 0), .a (.flt 0)⟩) = 1 ∧
+    outcome (latticeConstraints ⟨.s false [.a (.int 3), .a (.int 3)], .s false [.a (.int 1), .a (.int 1)], .a .none,
+      .s false [.s true [.int 0, .int 1, .int 1]], .a .none, .a .none, .a .none, .a .none, .none,
+      .a (.flt 0), .a (.flt 1)⟩) = 0 := by
+  decide +kernel
+
+/-- **C16-T1 → C01 for the constraints class**: whatever `LatticeConstraints.__init__` accepts —
+output bounds included since fix 6e08a8c — meets `Tfl.C01.CfgWF` (same side condition on duplicate
+Edgeworth pairs as `verifyLattice_cfgWF`) -/
+theorem latticeConstraints_cfgWF (r : RawLattice) (c : LatCfg) (h : latticeConstraints r = .ok c)
+    (hnd : (c.ew.map (fun t => (atomNat t.main, atomNat t.cond))).Nodup) : Tfl.C01.CfgWF c.toLat :=
+  verifyLattice_cfgWF _ c h hnd
 
 /-- **F-C16-n** the ValueError for repeated dimensions in a joint unimodality formats its message
 with `% single_constraint` (a 2-tuple): the real outcome is a `TypeError` -/
 theorem F_C16_n_message_formatting :
     outcome (latticeConstraints ⟨.s false [.a (.int 3), .a (.int 3), .a (.int 3)], .a .none, .a .none, .a .none, .a .none,
-      .a .none, .a .none, .a .none, .list [([0, 0], .str .peak)]⟩) = 2 := by decide +kernel
+      .a .none, .a .none, .a .none, .list [([0, 0], .str .peak)], .a .none, .a .none⟩) = 2 := by decide +kernel
 
 /-- the cycle check of `internal_utils._topological_sort` rejects a pair set only when it has NO
 root: `[(0,1),(1,0)]` is rejected, `[(0,1),(1,2),(2,1)]` is not (the returned order `[0,1,2]` is
